@@ -26,7 +26,9 @@ _KEY_CELL = ("by(0 <= col and col < array_mul, col == context + i * n_unique_tok
              "by(key >= 0 and key // array_mul == row and key % array_mul == col, key == col + array_mul * row, 0 <= col, col < array_mul, "
              "row >= 0, array_mul >= 1)\n"
              # ... which is the cell the accumulator's ghost functions assign to this key
-             "assert ROWOF(key) == row and COLOF(key) == col")
+             "unfold('ROWOF', key)\nunfold('COLOF', key)\n"
+             "by(ROWOF(key) == row and COLOF(key) == col, ROWOF(key) == key // array_mul, COLOF(key) == key % array_mul, "
+             "key // array_mul == row, key % array_mul == col)")
 _INTRO = ("intro_all('WF', coo_data)\nintro_all('KEYED', coo_data)\ntot = np.zeros(n_windows)\n"
           "assert forall(0, n_windows, lambda c: coo_data[c].ind[0] == 0 and len(coo_data[c].key) >= 2 and W(coo_data[c]) == 0)")
 _EMIT = "tot[i] = tot[i] + ite(key == KEY, val, 0)"
